@@ -26,6 +26,6 @@ Separate Extraction
   Mutability.fc_body Mutability.fc_stmt Mutability.fc_expr Mutability.fc_decl_type
   Mutability.use_function
   DeltaNodes.parse_full DeltaNodes.btok_of_code DeltaNodes.capacity
-  Containers.run Sem.run_main Expand.expand_sorted Header.build_header Header.header_spec Header.zones_wfb Header.refs_localb
+  Containers.run Sem.run_main Expand.expand_sorted Expand.get_key_offset Header.build_header Header.header_spec Header.zones_wfb Header.refs_localb
   VarScope.an_program VarScope.spec_program VarScopeProofs.once VarScopeProofs.events
   Syntax.body_codes Syntax.spec_body Syntax.lint_body Syntax.lint_spec_body.
